@@ -31,6 +31,7 @@ fn alphabet() -> Vec<Op> {
         Op::Fp,
         Op::IntoOwned,
         Op::Clone,
+        Op::Measure,
     ]
 }
 
@@ -41,11 +42,17 @@ struct Observed {
     bytes: Vec<u8>,
     byte_len: usize,
     has: Vec<bool>,
+    /// has_any_attribute over ANY_LISTS
+    any: Vec<Option<u16>>,
     debug: String,
 }
 
+/// lists handed to has_any_attribute: sealing types in two orders, a typed + a raw type, the whole
+/// universe, one absent type, nothing
+const ANY_LISTS: [&[u16]; 6] = [&[0x0008, 0x001C, 0x8028], &[0x8028, 0x001C, 0x0008], &[0x8022, 0x7F00], &UNIVERSE, &[0x0009], &[]];
+
 fn observe(b: &stun_types::message::MessageBuilder) -> Observed {
-    Observed { bytes: b.build(), byte_len: b.byte_len(), has: UNIVERSE.iter().map(|t| b.has_attribute(AttributeType::new(*t))).collect(), debug: format!("{b:?}") }
+    Observed { bytes: b.build(), byte_len: b.byte_len(), has: UNIVERSE.iter().map(|t| b.has_attribute(AttributeType::new(*t))).collect(), any: ANY_LISTS.iter().map(|l| b.has_any_attribute(&l.iter().map(|t| AttributeType::new(*t)).collect::<Vec<_>>()).map(|t| t.value())).collect(), debug: format!("{b:?}") }
 }
 
 /// run a program, judge every step; returns the final observation (for the dedup key)
@@ -68,7 +75,7 @@ fn run_prog(case: &Case, acc: &mut Acc) -> Option<(RefBuilder, Observed)> {
             (Ok(()), true) => acc.outcome("operation accepted"),
             (Err(_), false) => {
                 acc.outcome("operation refused");
-                if obs.bytes != prev.bytes || obs.byte_len != prev.byte_len || obs.has != prev.has {
+                if obs.bytes != prev.bytes || obs.byte_len != prev.byte_len || obs.has != prev.has || obs.any != prev.any {
                     viol!(acc, P, "refusal-leaves-trace", case, format!("a refused {} changed what the builder serialises or answers", op.to_text()), format!("unchanged: {}", fmt_bytes(&prev.bytes)), format!("{} has={:?}", fmt_bytes(&obs.bytes), obs.has));
                     return None;
                 }
@@ -106,6 +113,16 @@ fn check_state(case: &Case, acc: &mut Acc, rb: &RefBuilder, obs: &Observed, afte
                 let on_wire = m.attrs.iter().any(|a| a.typ == *t);
                 if obs.has[i] != on_wire {
                     viol!(acc, P, "has_attribute-vs-wire", case, format!("has_attribute({t:#06x}) disagrees with what is serialised after {after}"), format!("{on_wire}"), format!("{}", obs.has[i]));
+                }
+            }
+            for (l, got) in ANY_LISTS.iter().zip(obs.any.iter()) {
+                let present: Vec<u16> = l.iter().copied().filter(|t| m.attrs.iter().any(|a| a.typ == *t)).collect();
+                let ok = match got {
+                    None => present.is_empty(),
+                    Some(t) => present.contains(t),
+                };
+                if !ok {
+                    viol!(acc, P, "has_any_attribute-vs-wire", case, format!("has_any_attribute({l:04x?}) disagrees with what is serialised after {after}"), format!("one of {present:04x?} (None if empty)"), format!("{got:04x?}"));
                 }
             }
         }
